@@ -176,17 +176,16 @@ theorem kinv_initServer (g : Conn.Cfg) (ecp : Bool) (pf : Bytes) : KInv (Conn.in
 
 theorem sreach_init (g : Conn.Cfg) (hodd : g.firstId % 2 = 1) (hcws : ∀ sz, g.cws = some sz → sz ≤ 2147483647) :
     SReach (Conn.init g).streams := by
-  refine ⟨ConnFlowP.init_reach g, .init (.client g hodd), ?_, kinv_init g⟩
   cases hc : g.cws with
-  | none => exact ⟨_, .init (ConnRecvP.init_client g hc)⟩
-  | some sz => exact ⟨_, ConnRecvP.init_client_cws g sz hc (hcws sz hc)⟩
+  | none => exact .of_reach (kinv_init g) (.init (.client g hodd)) (.init (ConnRecvP.init_client g hc))
+  | some sz => exact .of_reach (kinv_init g) (.init (.client g hodd)) (ConnRecvP.init_client_cws g sz hc (hcws sz hc))
 
 theorem sreach_initServer (g : Conn.Cfg) (ecp : Bool) (pf : Bytes) (hcws : ∀ sz, g.cws = some sz → sz ≤ 2147483647) :
     SReach (Conn.initServer g ecp pf).streams := by
-  refine ⟨(ConnFlowP.initServer_reachH g ecp pf).reach, .init (.server g ecp pf), ?_, kinv_initServer g ecp pf⟩
   cases hc : g.cws with
-  | none => exact ⟨_, .init (ConnRecvP.init_server g ecp pf hc)⟩
-  | some sz => exact ⟨_, ConnRecvP.init_server_cws g ecp pf sz hc (hcws sz hc)⟩
+  | none => exact .of_reach (kinv_initServer g ecp pf) (.init (.server g ecp pf)) (.init (ConnRecvP.init_server g ecp pf hc))
+  | some sz =>
+    exact .of_reach (kinv_initServer g ecp pf) (.init (.server g ecp pf)) (ConnRecvP.init_server_cws g ecp pf sz hc (hcws sz hc))
 
 /-- **a fresh client connection satisfies the invariant** (for the builder options h2 accepts: odd first stream id,
     window sizes at most 2^31-1) -/
